@@ -10,7 +10,7 @@ CONSTANTS
   Es = 8
   MaxB = 32
   MaxPa = 2
-  TRem = {5}
-  FixedPlan = 0
+  TRem = {4, 5}
+  FixedPlan = 3
 INVARIANTS Inv Refines LookupOK ChkOK CapacityOK
 CHECK_DEADLOCK FALSE
